@@ -99,6 +99,88 @@ def mutants(s, name, rnd, quick):
             yield "subst", s[:i] + bcrypt64.charmap[idx ^ 16] + s[i + 1:]      # a USED bit of the salt: must not verify
 
 
+B64ISH = set("ABCDEFGHIJKLMNOPQRSTUVWXYZabcdefghijklmnopqrstuvwxyz0123456789./+-_=")
+
+
+def targeted(s):
+    """deterministic probes of every known decoder leniency, at every place it could apply: (mechanism, mutant).
+    The set of mechanisms a hasher accepts is a property of the code, not of a random sample."""
+    yield "trailing-newline", s + "\n"
+    yield "trailing-blank", s + " "
+    yield "leading-blank", " " + s
+    for m in re.finditer(r"\d+", s):
+        if m.start() == 0 or s[m.start() - 1] in "$=,|_{}":
+            a, b = m.start(), m.end()
+            if b - a < 10:
+                yield "number-blank-before", s[:a] + " " + s[a:]
+                yield "number-blank-after", s[:b] + " " + s[b:]
+                yield "number-leading-zero", s[:a] + "0" + s[a:]
+                yield "number-plus-sign", s[:a] + "+" + s[a:]
+                if s[a] == "0" and b - a > 1:
+                    yield "number-blank-for-zero", s[:a] + " " + s[a + 1:]
+                yield "number-underscore", s[:a] + s[a:b][:1] + "_" + s[a:b][1:] + s[b:] if b - a > 1 else s[:a] + s[a:b] + "_" + s[b:]
+    # fields that look like radix-64 data
+    pos = 0
+    for part in re.split(r"([$,|}])", s):
+        start = pos
+        pos += len(part)
+        if len(part) < 4 or not set(part) <= B64ISH or part.isdigit():
+            continue
+        end = start + len(part)
+        mid = start + len(part) // 2
+        for tag, i in (("start", start), ("middle", mid), ("end", end)):
+            yield f"field-foreign-char-{tag}", s[:i] + "!" + s[i:]
+            yield f"field-blank-{tag}", s[:i] + " " + s[i:]
+        yield "field-nul", s[:mid] + "\x00" + s[mid:]
+        yield "field-newline", s[:mid] + "\n" + s[mid:]
+        yield "field-padding-added", s[:end] + "=" + s[end:]
+        if part.endswith("="):
+            yield "field-padding-dropped", s[:end - 1] + s[end:]
+            last = end - 1 - (len(part) - len(part.rstrip("=")))
+        else:
+            last = end - 1
+        for alt in "ABCDEFGHIJKLMNOPQRSTUVWXYZabcdefghijklmnopqrstuvwxyz0123456789./+":      # every digit: finds unused bits whatever the digest is
+            if alt != s[last]:
+                yield "field-last-digit", s[:last] + alt + s[last + 1:]
+        for a, b in ((".", "+"), ("+", "."), ("/", "_"), ("_", "/"), ("-", "+"), ("+", "-"), (".", "/")):
+            j = s.find(a, start, end)
+            if j >= 0:
+                yield "field-alt-punctuation", s[:j] + b + s[j + 1:]
+    for m in re.finditer(r"\$", s):
+        yield "separator-doubled", s[:m.start()] + "$$" + s[m.end():]
+        yield "separator-dropped", s[:m.start()] + s[m.end():]
+
+
+def coarse(mech):
+    """class of a leniency mechanism, shared between targeted probes and random mutants"""
+    if "last-digit" in mech or mech.endswith(":last"):
+        return "lastbits"
+    if "blank" in mech or "newline" in mech:
+        return "blank"
+    if "zero" in mech:
+        return "zero"
+    if "plus-sign" in mech or "underscore" in mech:
+        return "sign"
+    if "last-digit" in mech or mech.endswith(":last"):
+        return "lastbits"
+    if "separator" in mech or mech in ("delete:foreign",):
+        return "separator"
+    if "digits" in mech:
+        return "number-changed"
+    if "foreign" in mech or "nul" in mech or "padding" in mech or "pad" in mech or "punct" in mech or "alnum" in mech:
+        return "foreign"
+    return "other"
+
+
+def coarse2(mech, m, s0):
+    """as coarse(), but a single changed character that is the last digit of a field is always the 'unused bits' mechanism"""
+    if len(m) == len(s0):
+        d = [i for i in range(len(m)) if m[i] != s0[i]]
+        if len(d) == 1 and (d[0] == len(s0) - 1 or s0[d[0] + 1] in "$="):
+            return "lastbits"
+    return coarse(mech)
+
+
 def leniency(mutant, original):
     """which decoder leniency lets `mutant` be read as `original` (classification of a finding, never pass/fail):
     <edit>:<class of the characters involved>[:last] - e.g. insert:blank (int() strips blanks), insert:zero (leading zeros),
@@ -192,6 +274,7 @@ def run(chk):
     total = 0
     restore = []
     skipped_expensive = [0]
+    probed = []
     for name in names:
         if name in skip:
             continue
@@ -207,7 +290,9 @@ def run(chk):
             ctxobj = CryptContext(schemes=[name])
         except Exception:
             ctxobj = None
-        for s, ckw in valid_hashes(name, h)[: (3 if quick else 5)]:
+        vh = valid_hashes(name, h)[: (3 if quick else 5)]
+        probed.append((name, h, vh))
+        for s, ckw in vh:
             padpos = len(s) - PADREPAIR_WRAPPED.get(name, 31)
             try:
                 orig_rounds = h.parsehash(s).get("rounds")
@@ -260,6 +345,53 @@ def run(chk):
                         if out == "True" and cname in ("verify", "ctx_verify"):
                             events.append({"fam": fam, "hasher": name, "kind": kind, "call": cname, "outcome": out, "padpos": padpos,
                                            "mutant": [ord(c) for c in m], "original": [ord(c) for c in s]})
+    # deterministic leniency probes (every hasher of the tier, every valid hash)
+    found = {}                 # (hasher, mechanism) -> witness
+    for name, h, hashes in probed:
+        ww = getattr(h, "wrapped", h)
+        for s0, ckw in hashes:
+            vkw = dict(ckw, full=True) if name == "scram" else ckw
+            try:
+                canon0 = ww.from_string(h._unwrap_hash(s0) if hasattr(h, "wrapped") else s0).to_string() if hasattr(ww, "from_string") else s0
+            except Exception:
+                canon0 = None
+            for mech, m in targeted(s0):
+                if m == s0 or (name in HEXNORM and m.lower() == s0.lower()):
+                    continue            # (hex case is normalised by documentation)
+                if (name in PADREPAIR or name in PADREPAIR_WRAPPED) and len(m) == len(s0):
+                    pidx = len(s0) - PADREPAIR_WRAPPED.get(name, 31) - 1
+                    if [i for i in range(len(m)) if m[i] != s0[i]] == [pidx]:
+                        continue        # (the padding bits of the salt's last digit are repaired by documentation)
+                out = call1(lambda: h.verify(PW, m, **vkw))
+                total += 1
+                chk.action("targeted-" + mech.split("-")[0])
+                if out == "True":
+                    try:
+                        same = canon0 is not None and ww.from_string(h._unwrap_hash(m) if hasattr(h, "wrapped") else m).to_string() == canon0
+                    except Exception:
+                        same = False
+                    found.setdefault((name, mech + ("@last" if coarse2(mech, m, s0) == "lastbits" and "last-digit" not in mech else ""), "same-value" if same else "OTHER-VALUE"), (m, s0))
+                elif out.startswith("Internal"):
+                    found.setdefault((name, mech, out), (m, s0))
+    for (name, mech, what), (m, s0) in sorted(found.items()):
+        chk.count((name, "targeted", mech, what))
+        if what == "same-value":
+            if name == "scram":
+                continue
+            chk.violation(f"lenient-decoding:{name}:{coarse2(mech, m, s0)}", f"{name}.verify accepts an undocumented re-spelling of the same value ({mech}): {m!r}", {"hasher": name, "mechanism": mech, "mutant": m, "original": s0})
+        elif what == "OTHER-VALUE":
+            if name in ("scram",) or (name in HEXNORM and False):
+                continue
+            chk.violation(f"{name}:verify:{mech}:True", f"{name}.verify answered True for an altered string ({mech}) that is not even a re-spelling of the same value: {m!r}", {"hasher": name, "mechanism": mech, "mutant": m, "original": s0})
+        else:
+            chk.violation(f"{name}:verify:{mech}:{what}", f"{name}.verify on a {mech} probe raised an internal error ({what}): {m!r}", {"hasher": name, "mechanism": mech, "mutant": m})
+    lenient_classes = {}
+    for (name, mech, what), (m, s0) in found.items():
+        if what == "same-value":
+            lenient_classes.setdefault(name, set()).add(coarse2(mech, m, s0))
+    chk.extra["lenient_mechanisms"] = sorted([n, m] for (n, m, w) in found if w == "same-value")
+    chk.extra["lenient_classes"] = sorted({(n, coarse2(m, v[0], v[1])) for (n, m, w), v in found.items() if w == "same-value"})
+    chk.extra["other_targeted_findings"] = sorted([n, m, w] for (n, m, w) in found if w != "same-value")
     for wb, old in restore:
         try:
             wb.set_backend(old)
@@ -301,10 +433,12 @@ def run(chk):
             continue        # a scram hash holding a subset of the digests is a valid hash of the same password
         if lenient:
             mech = leniency(wit, "".join(map(chr, e["original"])))
+            if coarse(mech) in lenient_classes.get(e["hasher"], ()) or coarse(mech) not in ("number-changed", "other"):
+                continue            # the deterministic probes above decide these mechanisms for every hasher; random mutants only add the rest
             chk.extra.setdefault("lenient_decoding", [])
             if [e["hasher"], mech] not in chk.extra["lenient_decoding"]:
                 chk.extra["lenient_decoding"].append([e["hasher"], mech])
-            chk.violation(f"lenient-decoding:{mech}", f"{e['hasher']}.{e['call']}: lenient decoding ({mech}): an undocumented re-spelling of the same value verified: {wit!r}",
+            chk.violation(f"lenient-decoding:{e['hasher']}:random:{coarse(mech)}", f"{e['hasher']}.{e['call']}: lenient decoding ({mech}): an undocumented re-spelling of the same value verified: {wit!r}",
                           {"hasher": e["hasher"], "kind": e["kind"], "call": e["call"], "outcome": e["outcome"], "mutant": wit, "original": "".join(map(chr, e["original"]))})
             continue
         chk.violation(f"{e['hasher']}:{e['call']}:{e['kind']}:{e['outcome']}",
